@@ -12,8 +12,13 @@ CONSTANTS
   LongPre <- PreLong
   LongItems <- ItemsLong
   LongMax = 70
+  FocusNames <- NoNames
+  FocusPre <- PreFocus
+  FocusItems <- ItemsFocus
+  FocusMax = 4
   FixO1 = TRUE
   FixRetry = TRUE
+  FixRetryList = FALSE
   MaxTried = 2
 INVARIANTS Q1 Q1b Q1r Q2 Q3 Q4 Q5 PickIsDoc ViewsAgree
 VIEW MCView
